@@ -12,9 +12,19 @@ Spec == Init /\ [][Next]_ci
 
 Fail(cond, pred, lev) == IF cond THEN {} ELSE {[p |-> pred, l |-> lev, part |-> ""]}
 
+\* the world dimension of the mesh type: the shape dimension unless the dump says otherwise (harness/c12_embed.cpp: surface meshes
+\* in 3D, edge meshes in 2D / 3D).  Base mesh and patch meshes carry one point of WDim coordinates per vertex - so that the
+\* coordinate clause of PatchIsSubmesh compares ALL world coordinates
+WDim(C) == IF "wdim" \in DOMAIN C THEN C.wdim ELSE C.dim
+CoordsShape(C, Lv) ==
+  /\ WDim(C) >= C.dim
+  /\ CoordsOK(Lv.base, WDim(C))
+  /\ \A r \in Ranks(C) : CoordsOK(PatchOf(Lv, r).mesh, WDim(C))
+
 LevelFails(C, l) ==
   LET Lv == C.levels[l] IN
   IF ~(WellFormed(Lv.base, C.fam, C.dim) /\ ShapeOK(C, Lv)) THEN Fail(FALSE, "ShapeOK", l - 1)
+  ELSE IF ~CoordsShape(C, Lv) THEN Fail(FALSE, "CoordsShape", l - 1)
   ELSE UNION {
     Fail(Cover(C, Lv), "Cover", l - 1),
     Fail(Injective(C, Lv), "Injective", l - 1),
@@ -37,9 +47,10 @@ Verdict(C) ==
         THEN Fail(AssignRealised(C), "AssignRealised", 0) ELSE {})
 
 Info(C) ==
-  IF Len(C.levels) = 0 THEN [nb |-> 0, single |-> 0]
+  IF Len(C.levels) = 0 THEN [nb |-> 0, single |-> 0, wdim |-> WDim(C)]
   ELSE LET Lv == C.levels[1] IN
-    [nb |-> FoldSeq(LAMBDA p, acc : acc + Len(p.comm), 0, Lv.patches),
+    [wdim |-> WDim(C),
+     nb |-> FoldSeq(LAMBDA p, acc : acc + Len(p.comm), 0, Lv.patches),
      \* number of neighbour pairs that touch in a single vertex only
      single |-> Cardinality({rs \in Ranks(C) \X Ranks(C) : rs[1] < rs[2]
                               /\ Cardinality(Ent(Lv, rs[1], C.dim, 0) \cap Ent(Lv, rs[2], C.dim, 0)) = 1})]
